@@ -1,4 +1,91 @@
 (* C13 Symmetric hash join emits exactly the join of everything that arrived.
    This file contains only the property theorems; each is closed by an exact/apply of a
-   lemma proved in Pull/PJoin.v and followed by Print Assumptions. *)
-From HV Require Import Pull.ModelJoin.
+   lemma proved in Pull/PJoin.v and followed by Print Assumptions.
+
+   FULL STATEMENT (target):  for every pair of fused scripts l1, l2 of arrivals and Pending
+   answers and either state semantics s, starting from empty states,
+       runs_to (shj_m s) (half0, half0, l1, l2) out st'  ->
+       Permutation out (join_rows (built s (items l1)) (built s (items l2)))
+   (built = first occurrences for SetSem, everything for MultiSem; for SetSem also NoDup out),
+   the new-tick path yields the same multiset, and over ticks with persisted states
+   each tick's output is the join of everything that arrived within the persisted scope.
+
+   PROVED HERE (hence the suffix _partial on the main theorem): the invariant
+       emitted + pending matches + join(old tables) = pending before + join(new tables)
+   for every single poll and every whole run, over all scripts; at the end nothing is pending,
+   so   emitted + join(initial tables) = join(final tables)   -- each matching pair of table
+   entries exactly once; the new-tick enumeration (both lhs_smaller branches) = join of the
+   drained tables; what build/probe do to a table; for the multiset state the drained table
+   holds exactly the initial rows plus the arrivals.
+   MISSING: the characterisation "final tables of the incremental run = built s (arrivals)"
+   (needs one more loop invariant: rows(table) ++ dedup'd remaining items is preserved) and,
+   for SetSem, NoDup of the output.  Both are checked on every run on the implementation's
+   outputs by C13_holds_b (Pull/CorrJoin.v), not proved. *)
+From Coq Require Import Permutation.
+From HV Require Import Pull.Model Pull.PCore Pull.ModelJoin Pull.PJoin.
+Open Scope N_scope.
+
+(* every poll of SymmetricHashJoin preserves the invariant, whatever the scripts answer *)
+Theorem C13_poll_invariant : forall s st o st', wf st -> shj_pull s st = (o, st') ->
+  wf st' /\ Permutation (emit o ++ pend st' ++ JS st) (pend st ++ JS st').
+Proof. exact shj_pull_inv. Qed.
+Print Assumptions C13_poll_invariant.
+
+Theorem C13_run_invariant : forall s st out st', runs_to (shj_m s) st out st' -> wf st ->
+  wf st' /\ Permutation (out ++ pend st' ++ JS st) (pend st ++ JS st').
+Proof. exact shj_runs_inv. Qed.
+Print Assumptions C13_run_invariant.
+
+Theorem C13_nothing_pending_at_end : forall s st out st',
+  runs_to (shj_m s) st out st' -> pend st' = [].
+Proof. exact shj_runs_ended. Qed.
+Print Assumptions C13_nothing_pending_at_end.
+
+(* st = (lhs_state, rhs_state, lhs script, rhs script); JS = join of the two tables' rows *)
+Theorem C13_incremental_partial : forall s st out st',
+  wf st -> pend st = [] -> runs_to (shj_m s) st out st' ->
+  Permutation (out ++ JS st) (JS st').
+Proof. exact shj_emits_join. Qed.
+Print Assumptions C13_incremental_partial.
+
+Theorem C13_new_tick : forall s h1 h2 l1 l2, keys_ok (table h1) -> keys_ok (table h2) ->
+  let '(h1', h2', out) := new_tick s h1 h2 l1 l2 in Permutation out (J h1' h2').
+Proof. exact new_tick_emits_join. Qed.
+Print Assumptions C13_new_tick.
+
+Theorem C13_new_tick_lhs_smaller : forall h1 h2, keys_ok (table h2) -> new_tick_lhs h1 h2 = J h1 h2.
+Proof. exact new_tick_lhs_join. Qed.
+Print Assumptions C13_new_tick_lhs_smaller.
+
+Theorem C13_new_tick_rhs_smaller : forall h1 h2, keys_ok (table h1) ->
+  Permutation (new_tick_rhs h1 h2) (J h1 h2).
+Proof. exact new_tick_rhs_join. Qed.
+Print Assumptions C13_new_tick_rhs_smaller.
+
+Theorem C13_build : forall s h k v h' b, build s h k v = (h', b) -> keys_ok (table h) ->
+  cm h' = cm h /\ keys_ok (table h') /\
+  (if b then Permutation (rows (table h')) (rows (table h) ++ [(k, v)]) /\ hlen h' = hlen h + 1
+   else h' = h).
+Proof. exact build_spec. Qed.
+Print Assumptions C13_build.
+
+Theorem C13_drain_multiset : forall l h,
+  Permutation (rows (table (drain MultiSem h l))) (rows (table h) ++ items l).
+Proof. exact drain_multi_rows. Qed.
+Print Assumptions C13_drain_multiset.
+
+(* non-vacuity: duplicates on both sides, a Pend on each side; set vs multiset *)
+Example C13_ex_set :
+  option_map fst (run_fuel (shj_m SetSem) 40
+    (half0, half0, [Rdy (1, 10); Pend; Rdy (1, 11); Rdy (1, 10)], [Pend; Rdy (1, 7); Rdy (1, 7)]))
+  = Some [(1, (10, 7)); (1, (11, 7))].
+Proof. vm_compute. reflexivity. Qed.
+
+Example C13_ex_multi :
+  option_map (fun r => length (fst r)) (run_fuel (shj_m MultiSem) 40
+    (half0, half0, [Rdy (1, 10); Pend; Rdy (1, 11); Rdy (1, 10)], [Pend; Rdy (1, 7); Rdy (1, 7)]))
+  = Some 6%nat.
+Proof. vm_compute. reflexivity. Qed.
+
+Example C13_ex_wf : wf (half0, half0, [Rdy (1, 10)], [Pend]) /\ pend (half0, half0, [Rdy (1, 10)], [Pend]) = [].
+Proof. split; [split; constructor|reflexivity]. Qed.
